@@ -248,6 +248,8 @@ impl Prop for C06 {
             v.push(format!("container:{}", k));
         }
         v.push("python-layer:__eq__".to_string());
+        v.push("eq-case:plain-vs-single-member-name-with-settlement".to_string());
+        v.push("eq-case:plain-with-weekend-holiday-vs-single-member-name".to_string());
         v
     }
     fn min_evaluations(&self, tier: Tier) -> u64 {
@@ -554,6 +556,21 @@ impl Prop for C06 {
                             check_eq(ctx, &K::U(UnionCal::new(vec![single.clone()], None)), &u, label, desc.clone());
                             if let Ok(n) = NamedCal::try_new(base_names[0]) {
                                 check_eq(ctx, &K::N(n), &u, label, desc.clone());
+                            }
+                        }
+                        // a plain calendar against a name with ONE business-side member: with a settlement part that
+                        // does restrict (unequal unless it happens not to), and against a date-equal but structurally
+                        // different plain calendar (an extra holiday listed on a weekend: equal)
+                        {
+                            let other = BUILTIN[(idx as usize / 9 + 3) % BUILTIN.len()];
+                            if let Ok(nr) = NamedCal::try_new(&format!("{}|{}", base_names[0], other)) {
+                                check_eq(ctx, &plain, &K::N(nr), "plain-vs-single-member-name-with-settlement", desc.clone());
+                            }
+                            let sat = (Z_1970..Z_1970 + 7).find(|z| weekday(*z) == 5).unwrap() + 7 * rng.range_i(0, 12000);
+                            if weekday(sat) == 5 && rateslib::verif::cal_week_mask(&single).contains(&5) {
+                                if let Ok(n0) = NamedCal::try_new(base_names[0]) {
+                                    check_eq(ctx, &K::C(with_extra(&single, sat)), &K::N(n0), "plain-with-weekend-holiday-vs-single-member-name", desc.clone());
+                                }
                             }
                         }
                         if let (Ok(n1), Ok(n2)) = (NamedCal::try_new(&format!("{}|all", base_names[0])), NamedCal::try_new(base_names[0])) {
